@@ -33,6 +33,7 @@ struct vs_plan {
     bool refuse_after_partial;          /* after a shortened send the next send on that fd is refused */
     bool pending_refuse;
     bool quiet;                         /* injections off (drain phase) */
+    int forced_refusals;                /* the next n data send()s are refused (EAGAIN) whatever else is configured, quiet included */
     /* fail-at: the n-th in-scope call of kind fail_call returns -1/errno, no side effect */
     int fail_call, fail_at, fail_errno;
     bool fail_fired;
